@@ -736,15 +736,24 @@ Proof. intros rl p rl' H. discriminate. Qed.
 Lemma not_small_seg : forall m d x, seg_at m d = Some x -> ~ seg_small x -> ~ segs_small m.
 Proof. intros m d x H N S. apply N. eapply seg_at_small; eauto. Qed.
 
+(* what the code does where the specification rejects: never a value; an error (not a panic)
+   when the pointer word itself is inside its segment and segments fit the address space *)
+Definition none_case (inb : Prop) (rl : Z) (r : res Ptr * Z) : Prop :=
+  never_ok r /\ (inb -> r = (Err, rl)).
+
+Lemma none_err : forall inb rl, none_case inb rl (Err, rl).
+Proof. intros inb rl. split; [apply never_ok_err|reflexivity]. Qed.
+
 Ltac close_ns NO NS :=
   match goal with
-  | |- match ?X with _ => _ end => destruct X; [right; split; [exact NO|tauto]|exact NO]
+  | |- match ?X with _ => _ end =>
+    destruct X; [right; split; [exact NO|tauto]|split; [exact NO|intros [_ SS]; exfalso; exact (NS SS)]]
   end.
 
 Lemma readPtr_spec : forall m rl sid s wa depth,
   bytes_ok m -> seg_at m sid = Some s ->
   match spec_resolve false m sid wa with
-  | None => never_ok (readPtr true m rl sid s (8 * wa) depth)
+  | None => none_case (in_words s wa 1 = true /\ segs_small m) rl (readPtr true m rl sid s (8 * wa) depth)
   | Some t =>
     (exists dsid, readPtr true m rl sid s (8 * wa) depth =
                   (if dfar_zero_pad m sid wa then (Ok nullPtr, rl) else tail_expect rl depth dsid t) /\ list_repr t)
@@ -757,8 +766,8 @@ Proof.
   destruct (in_words s wa 1) eqn:IW; cbn [negb].
   2:{ unfold resolveFarPointer. destruct (readRawPointer s (8 * wa)) as [v| |] eqn:RR; cbn [bind].
       - apply readRawPointer_inv in RR. unfold in_words in IW. lia.
-      - apply never_ok_err.
-      - apply never_ok_panic. }
+      - split; [apply never_ok_err|intros [Q _]; discriminate].
+      - split; [apply never_ok_panic|intros [Q _]; discriminate]. }
   unfold in_words in IW.
   destruct (8 * wa + 8 <? 4294967296) eqn:SM.
   2:{ assert (NO : never_ok match resolveFarPointer m sid s (8 * wa) with
@@ -794,15 +803,15 @@ Proof.
         + left. exists sid. exact E.
         + right. split; [rewrite E; apply never_ok_err|].
           intros [S L]. apply NG. split; [eapply seg_at_small; eauto|exact L].
-      - rewrite T. apply never_ok_err. }
+      - rewrite T. apply none_err. }
   (* far pointers *)
   cbv iota. rewrite ?K2. cbn [andb].
   change (farSegment w) with (far_seg w). rewrite (lookup_or_self m sid s (far_seg w) Hs).
   rewrite farAddress_spec by exact Hw.
   pose proof (far_off_range w) as Rpa. set (pa := far_off w) in *.
   destruct (seg_at m (far_seg w)) as [ps|] eqn:Hps.
-  2:{ destruct (2 + 4 * far_two w =? 6) eqn:Q6; cbn [bind]; [apply never_ok_err|].
-      destruct (2 + 4 * far_two w =? 2) eqn:Q2; cbn [bind]; [apply never_ok_err|]. lia. }
+  2:{ destruct (2 + 4 * far_two w =? 6) eqn:Q6; cbn [bind]; [apply none_err|].
+      destruct (2 + 4 * far_two w =? 2) eqn:Q2; cbn [bind]; [apply none_err|]. lia. }
   pose proof (seg_at_ok _ _ _ Hb Hps) as Hokps.
   destruct (far_two w =? 0) eqn:F2.
   - (* single far *)
@@ -810,8 +819,8 @@ Proof.
     replace (2 + 4 * far_two w) with 2 by lia. cbn [Z.eqb Pos.eqb bind].
     unfold regionInBounds, addSize, in_words, maxSegmentSize, zlen. cbv zeta.
     destruct ((0 <=? pa) && (8 * (pa + 1) <=? blen ps)) eqn:IP.
-    2:{ destruct (8 * pa + 8 >? 4294967288) eqn:A1; cbn [negb]; [apply never_ok_err|].
-        destruct (8 * pa + 8 <=? Z.of_nat (length ps)) eqn:A2; cbn [negb]; [unfold blen in IP; lia|apply never_ok_err]. }
+    2:{ destruct (8 * pa + 8 >? 4294967288) eqn:A1; cbn [negb]; [apply none_err|].
+        destruct (8 * pa + 8 <=? Z.of_nat (length ps)) eqn:A2; cbn [negb]; [unfold blen in IP; lia|apply none_err]. }
     destruct (8 * pa + 8 >? 4294967288) eqn:A1; cbn [negb].
     { assert (NS : ~ segs_small m).
       { eapply not_small_seg; [exact Hps|]. unfold seg_small, maxSegmentSize. lia. }
@@ -826,14 +835,14 @@ Proof.
       * left. exists (far_seg w). exact E.
       * right. split; [rewrite E; apply never_ok_err|].
         intros [S L]. apply NG. split; [eapply seg_at_small; eauto|exact L].
-    + rewrite T. apply never_ok_err.
+    + rewrite T. apply none_err.
   - (* double far *)
     assert (F1 : (far_two w =? 1) = true) by lia. rewrite F1. cbn [andb].
     replace (2 + 4 * far_two w) with 6 by lia. cbn [Z.eqb Pos.eqb bind].
     unfold regionInBounds, addSize, in_words, maxSegmentSize, zlen. cbv zeta.
     destruct ((0 <=? pa) && (8 * (pa + 2) <=? blen ps)) eqn:IP.
-    2:{ destruct (8 * pa + 16 >? 4294967288) eqn:A1; cbn [negb]; [apply never_ok_err|].
-        destruct (8 * pa + 16 <=? Z.of_nat (length ps)) eqn:A2; cbn [negb]; [unfold blen in IP; lia|apply never_ok_err]. }
+    2:{ destruct (8 * pa + 16 >? 4294967288) eqn:A1; cbn [negb]; [apply none_err|].
+        destruct (8 * pa + 16 <=? Z.of_nat (length ps)) eqn:A2; cbn [negb]; [unfold blen in IP; lia|apply none_err]. }
     destruct (8 * pa + 16 >? 4294967288) eqn:A1; cbn [negb].
     { assert (NS : ~ segs_small m).
       { eapply not_small_seg; [exact Hps|]. unfold seg_small, maxSegmentSize. lia. }
@@ -845,13 +854,13 @@ Proof.
     destruct (8 * pa + 8 >? 4294967288) eqn:A3; [lia|].
     replace (8 * pa + 8) with (8 * (pa + 1)) by lia.
     pose proof (word_at_range ps (pa + 1) Hokps) as Ht. set (t := word_at ps (pa + 1)) in *.
-    destruct ((ptr_kind f =? 2) && (far_two f =? 0)) eqn:C1; cbn [negb andb]; [|apply never_ok_err].
+    destruct ((ptr_kind f =? 2) && (far_two f =? 0)) eqn:C1; cbn [negb andb]; [|apply none_err].
     rewrite readRawPointer_ok by (unfold blen; lia). fold t. cbn [bind].
     rewrite tag_cond by exact Ht.
-    destruct (((ptr_kind t =? 0) || (ptr_kind t =? 1)) && (off30 t =? 0)) eqn:C2; cbn [negb]; [|apply never_ok_err].
+    destruct (((ptr_kind t =? 0) || (ptr_kind t =? 1)) && (off30 t =? 0)) eqn:C2; cbn [negb]; [|apply none_err].
     change (farSegment f) with (far_seg f). rewrite (lookup_or_self m sid s (far_seg f) Hs).
     destruct (seg_at m (far_seg f)) as [ds|] eqn:Hds; cbn [bind].
-    2:{ unfold spec_obj. rewrite Hds. apply never_ok_err. }
+    2:{ unfold spec_obj. rewrite Hds. apply none_err. }
     pose proof (seg_at_ok _ _ _ Hb Hds) as Hokds.
     assert (F20 : far_two f = 0) by lia. assert (O0 : off30 t = 0) by lia.
     destruct (landing_fields f t Hf Ht F20) as (Hwl & L1 & L2 & L3 & L4 & L5 & L6).
@@ -879,7 +888,7 @@ Proof.
         -- left. exists (far_seg f). exact E.
         -- right. split; [rewrite E; apply never_ok_err|].
            intros [S L]. apply NG. split; [eapply seg_at_small; eauto|exact L].
-      * rewrite T. apply never_ok_err.
+      * rewrite T. apply none_err.
 Qed.
 
 (* ------------------------------------------------------------------ read_ptr_refines_spec *)
@@ -904,7 +913,7 @@ Proof.
   { rewrite lookup_seg_at in Hl. destruct (seg_at m sid); [inversion Hl; reflexivity|discriminate]. }
   pose proof (readPtr_spec m rl sid s wa depth Hb Hs) as M.
   destruct (spec_resolve false m sid wa) as [t|] eqn:SR.
-  2:{ exfalso. exact (M p rl' H). }
+  2:{ exfalso. exact (proj1 M p rl' H). }
   destruct (spec_resolve_facts _ _ _ _ _ SR) as [W I].
   exists t. split; [reflexivity|]. split; [exact W|]. split; [exact I|].
   destruct M as [[dsid [E LR]]|[NO _]]; [|exfalso; exact (NO p rl' H)].
